@@ -65,7 +65,30 @@ func (pc *parentController) callHook(
 		if child != nil && child.GetNamespace() == "" {
 			child.SetNamespace(parent.GetNamespace())
 		}
+		// With selector generation every child carries the controller-uid label.
+		// Add it here, for every parent revision, so that the rolling-update
+		// comparisons see the same desired state that is later applied.
+		if child != nil && pc.isUsingGeneratedLabelSelector() {
+			addControllerUIDLabel(child, parent)
+		}
 	}
 
 	return &response, nil
+}
+
+// addControllerUIDLabel adds the label matched by a generated selector unless
+// the child already has one. Malformed labels are left for syncParentObject to report.
+func addControllerUIDLabel(child, parent *unstructured.Unstructured) {
+	childLabels, _, err := unstructured.NestedStringMap(child.UnstructuredContent(), "metadata", "labels")
+	if err != nil {
+		return
+	}
+	if _, ok := childLabels["controller-uid"]; ok {
+		return
+	}
+	if childLabels == nil {
+		childLabels = make(map[string]string, 1)
+	}
+	childLabels["controller-uid"] = string(parent.GetUID())
+	child.SetLabels(childLabels)
 }
